@@ -263,6 +263,13 @@ def obs_serial(c: Ctx, enc, *, props, quick=True, salt=0, tmpdir=None):
         # serialize mapper style: mutate-and-return vs. returning a new dict (both documented)
         ser = (ser_mapper if salt % 2 == 0 else (lambda node, data: ser_mapper(node, dict(data)))) if is_item else None
         deser = (lambda parent, item: Item(item["name"], item["rank"])) if is_item else None
+        if is_item and salt % 3 == 1:
+            # a serialiser that builds its result from scratch (only the fields it knows about)
+            def ser(node, data):   # noqa: F811
+                out = {"data": data["data"], "name": node.data.name, "rank": node.data.rank}
+                if "data_id" in data:
+                    out["data_id"] = data["data_id"]
+                return out
         relocate = is_item and salt % 3 == 0
         if relocate:
             # an inverse mapper pair that keeps the id under a domain key: the serialiser moves data_id to 'guid',
